@@ -14,6 +14,9 @@
 //!   image.move  <obj> <dx> <dy>                -> `bb=<rect> mut=<1|0> r1=<map>` of `.translate((dx,dy))`
 //!        on an unbounded R1; `mut` = `translate_mut` left the same value as `translate` returned
 //!   (`err:<expected>` when `ImageRaw::new` rejects the buffer)
+//!   image.wide  <bits> <order> <w> <h>         -> `p00=<v|none>`: `pixel((0,0))` of a zero filled image
+//!        of a size beyond i32::MAX (replay only, never generated; the model driver skips it: the
+//!        buffer has >= 2^28 bytes. Lean side: `pixel_none_inside_when_width_wraps`)
 //!
 //! The generic `ImageRaw<C, O>` is instantiated for the 7 raw widths (BinaryColor, Gray2, Gray4,
 //! Gray8, Rgb565, Rgb888 and the local `C32` with `Raw = RawU32`) x 2 data orders; colours are
@@ -134,6 +137,18 @@ where
         }
     }
     Ok(v)
+}
+
+fn real_wide<C, O>(size: Size) -> Result<Option<u32>, usize>
+where
+    C: ColNum,
+    O: DataOrder,
+    for<'a> RawDataSlice<'a, C::Raw, O>: IntoIterator<Item = C::Raw>,
+{
+    let len = ref_bpr(C::Raw::BITS_PER_PIXEL as u32, size.width) * size.height as usize;
+    let data = vec![0u8; len]; // zeroed allocation: pages are never touched
+    let raw = ImageRaw::<C, O>::new(&data, size).map_err(expected_of)?;
+    Ok(raw.pixel(Point::new(0, 0)).map(|c| c.num()))
 }
 
 fn make_image<'a, T: ImageDrawable>(d: &'a T, obj: &Obj) -> Image<'a, T> {
@@ -318,6 +333,9 @@ fn areas_for(w: i32, h: i32) -> Vec<(i32, i32, u32, u32)> {
         (0, 1, u(w), 1),
         (1, 0, 1, u(h)),
         (2, 1, 3, 2),
+        (0, 0, 1, 1),
+        (w - 1, 0, 1, u(h)),
+        (0, h - 1, u(w), 1),
         // overlapping
         (-1, -1, 3, 3),
         (w - 2, h - 2, 4, 4),
@@ -351,6 +369,11 @@ fn nested_for(w: i32, h: i32) -> Vec<((i32, i32, u32, u32), (i32, i32, u32, u32)
         ((w, 0, 2, 2), (0, 0, 1, 1)),
         ((1, 1, 0, 2), (0, 0, 1, 1)),
         ((2, 0, u(w - 3), u(h)), (1, 1, u(w - 4), u(h - 1))),
+        ((0, 0, u(w), u(h)), (0, 0, u(w), u(h))),
+        ((1, 0, u(w - 1), u(h)), (0, 0, u(w - 1), u(h))),
+        ((0, 1, u(w), u(h - 1)), (1, 0, u(w - 1), u(h - 1))),
+        ((0, 0, u(w - 1), u(h - 1)), (w - 2, h - 2, 1, 1)),
+        ((1, 1, u(w - 1), u(h - 1)), (0, 0, 1, u(h - 1))),
     ]
 }
 
@@ -396,8 +419,8 @@ impl Module for M {
     fn rule(&self) -> &'static str {
         "ops: 7 raw widths (1,2,4,8,16,24,32 bit) x 2 data orders x every image size 0..=9 x 0..=4 (quick; 0..=20 x 0..=8 \
          thorough) x byte patterns (zeros, ones, two position dependent formulas, seeded random) x draw offsets incl. \
-         negative x Image::new / with_center x sub-image areas (inside, overlapping, outside, zero sized; 20 per size) and \
-         nested pairs (10 per size) x 2 target boxes (one clipping) on R1 (draw_iter only) and R2 (native fill draining the \
+         negative x Image::new / with_center x sub-image areas (inside, overlapping, outside, zero sized; 23 per size) and \
+         nested pairs (15 per size) x 2 target boxes (one clipping) on R1 (draw_iter only) and R2 (native fill draining the \
          colour iterator); ImageRaw::new with lengths expected-1, expected, expected+1, 0; pixel() over the box + 1 px margin; \
          then seeded random images / areas / offsets. A draw or move op is non-trivial when the shown region is non-empty; \
          a pixel op when the image is non-empty; a new op when the expected length is non-zero. distinct = distinct op text."
@@ -589,6 +612,18 @@ impl Module for M {
                 Ok(()) => "ok".into(),
                 Err(e) => format!("err:{}", e),
             };
+        }
+        if stream == "image.wide" {
+            let got = dispatch!(bits, order, real_wide(size));
+            let got = match got {
+                Err(e) => return format!("err:{}", e),
+                Ok(g) => g,
+            };
+            // pixel_none_iff at the point the theorem excludes (`width, height <= i32::MAX`)
+            ctx.expect(got.is_some() == (w > 0 && h > 0), "C09:pixel-none-inside-box:size-exceeds-i32", || {
+                format!("{} pixel((0,0)) = {:?} although (0,0) is inside the bounding box", op, got)
+            });
+            return format!("p00={}", fmt_opt(got));
         }
         let bytes: Vec<u8> = t.u32_list().into_iter().map(|b| b as u8).collect();
         if bits < 8 && w % (8 / bits) != 0 {
